@@ -7,6 +7,7 @@ pub mod tables;
 pub mod woff;
 pub mod woff2;
 pub mod cff_c07;
+pub mod cff_hdr_c07;
 pub mod validate_c09;
 
 pub fn tag(s: &str) -> u32 {
